@@ -17,7 +17,7 @@ THEOREMS = ["PotasscoVerif.C02.C02_stable_models", "PotasscoVerif.C02.C02_equiva
             "PotasscoVerif.C02.C02_map_injective", "PotasscoVerif.C02.C02_map_stable", "PotasscoVerif.C02.C02_aux_fresh", "PotasscoVerif.C02.convert_steps",
             "PotasscoVerif.C02.C02_minimize_flip", "PotasscoVerif.C02.C02_minimize_sorted", "PotasscoVerif.C02.flushMinimize_order"]
 PARTIAL = {"C02_equivalence across several steps / externals with the extension": "C02_stable_models / C02_equivalence / C02_cost are proved for one program step of rules (all head kinds, normal and weight bodies), "
-           "minimize, output and external directives, the externals compiled away (conversion without the clasp extension; with it, for steps without externals); how external() calls passed on with the "
+           "minimize, output, external and edge directives (an edge counts as asking to show its helper name `_edge(s,t)`), the externals compiled away (conversion without the clasp extension; with it, for steps without externals); how external() calls passed on with the "
            "extension behave, and the answer sets of several incremental steps taken together, are decided by the brute-force answer-set oracle on the implementation's output and by "
            "model == implementation; across steps only the atom map is proved (C02_map_stable, C02_aux_fresh)"}
 BSIZES = (4096,)
